@@ -4,6 +4,13 @@
 // handleFindCoordinator and buildNotReadyResponse with generated snapshots and request forms,
 // and prints what a client decodes from the reply bytes, in the text format of
 // lean/Driver/C28.lean.
+//
+// Sessions: `cfg` creates ONE proxy + ONE InMemoryStore; every op up to the next `cfg` runs on
+// them.  `snap` = store.Update(snapshot) (the cluster metadata moves on under the proxy),
+// `warm refresh` = the real refreshMetadataCache, `warm backends` = the real currentBackends,
+// `resolve <id>` = the real resolveTopicID (all three call updateTopicNames on unchanged code),
+// `meta`/`par` = handleMetadata.  A reply must be a function of the snapshot in force, not of
+// anything the proxy cached earlier.
 package main
 
 import (
